@@ -207,4 +207,23 @@ theorem collectFromResolvedIn_perm {σ σ' : Entries String (List String)} (h : 
   · exact Or.inl h'
   · exact Or.inr ⟨f, h.mem_iff.mpr hf, ha⟩
 
+/-! ### `perms` enumerates every iteration order (the driver's model-set is complete) -/
+
+theorem mem_insertEverywhere {α : Type} (x : α) (a b : List α) : a ++ x :: b ∈ insertEverywhere x (a ++ b) := by
+  induction a with
+  | nil => cases b <;> simp [insertEverywhere]
+  | cons y ys ih =>
+    simp only [cons_append, insertEverywhere, mem_cons, mem_map]
+    exact Or.inr ⟨_, ih, rfl⟩
+
+theorem mem_perms_of_perm {α : Type} {l l' : List α} (h : l'.Perm l) : l' ∈ perms l := by
+  induction l generalizing l' with
+  | nil => simp [perms, perm_nil.mp h]
+  | cons x xs ih =>
+    have hx : x ∈ l' := h.symm.subset mem_cons_self
+    obtain ⟨a, b, rfl⟩ := append_of_mem hx
+    have hab : (a ++ b).Perm xs := (perm_middle.symm.trans h).cons_inv
+    simp only [perms, mem_flatMap]
+    exact ⟨a ++ b, ih hab, mem_insertEverywhere x a b⟩
+
 end HL.MapOrder
